@@ -75,56 +75,92 @@ def flat(d, tree, prefix=()):
   return res
 
 
+def diff_call(d, p, xs, ct, tvars, tins, nest=()):
+  """one call of the differentiated module p under the lifted transform the case names"""
+  fn = lambda m, *a: m(*a)
+  kind = d['kind']
+  vf = dec_filter(d['filter'])
+  if kind == 'vjp':
+    if d.get('has_aux'):
+      y, bwd, aux = nn.vjp(fn, p, *xs, vjp_variables=vf, has_aux=True)
+    else:
+      y, bwd = nn.vjp(fn, p, *xs, vjp_variables=vf)
+      aux = None
+    vg, *ig = bwd(ct)
+    return {'y': y, 'vg': vg, 'ig': ig, 'aux': aux}
+  if kind == 'jvp':
+    tv = {}
+    for i, t in tvars:
+      v = d['vars'][i]
+      node = tv.setdefault(v['col'], {})
+      for k in nest:
+        node = node.setdefault(k, {})
+      node[v['name']] = t
+    y, t = nn.jvp(fn, p, tuple(xs), tuple(tins), tv)
+    return {'y': y, 't': t}
+  if kind == 'grad':
+    g = nn.grad(fn, p, *xs, has_aux=bool(d.get('has_aux')))
+    if d.get('has_aux'):
+      g, aux = g
+      return {'ig': list(g) if isinstance(g, tuple) else [g], 'aux': aux}
+    return {'ig': list(g) if isinstance(g, tuple) else [g]}
+  if kind == 'value_and_grad':
+    out, g = nn.value_and_grad(fn, p, *xs, has_aux=bool(d.get('has_aux')))
+    y, aux = (out if d.get('has_aux') else (out, None))
+    return {'y': y, 'ig': list(g) if isinstance(g, tuple) else [g], 'aux': aux}
+  if kind == 'custom_vjp':
+    # backward rule: twice the true cotangents for the inputs, three times for the variables
+    def f(m, *a):
+      return m(*a)
+
+    def fwd(m, *a):
+      return nn.vjp(f, m, *a, vjp_variables=vf)
+
+    def bwd(vjp_fn, ct):
+      vg, *ig = vjp_fn(ct)
+      return (jax.tree_util.tree_map(lambda g: 3.0 * g, vg), *[2.0 * g for g in ig])
+    cf = nn.custom_vjp(f, forward_fn=fwd, backward_fn=bwd, grad_vars=vf)
+    y = cf(p, *xs)
+    return {'y': y}
+  raise ValueError(kind)
+
+
 class Top(nn.Module):
   did: int = 0
 
   @nn.compact
   def __call__(self, xs, ct, tvars, tins):
+    return diff_call(DESCS[self.did], Poly(self.did, name='p'), xs, ct, tvars, tins)
+
+
+class Inner(nn.Module):
+  did: int = 0
+
+  def setup(self):
+    self.p = Poly(self.did)
+
+  def __call__(self, *xs):
+    return self.p(*xs)
+
+
+class Outer(nn.Module):
+  """a history of calls on one sub-module bound in setup (its scope, and the scope of its own sub-module, live across the calls):
+  direct calls and differentiated calls in the order the case gives"""
+  did: int = 0
+
+  def setup(self):
+    self.inner = Inner(self.did)
+
+  def __call__(self, xs, ct, tvars, tins):
     d = DESCS[self.did]
-    p = Poly(self.did, name='p')
-    fn = lambda m, *a: m(*a)
-    kind = d['kind']
-    vf = dec_filter(d['filter'])
-    if kind == 'vjp':
-      if d.get('has_aux'):
-        y, bwd, aux = nn.vjp(fn, p, *xs, vjp_variables=vf, has_aux=True)
+    ys = []
+    for s in d['seq']:
+      if s == 'direct':
+        o = self.inner(*xs)
+        ys.append(o[0] if d.get('has_aux') else o)
       else:
-        y, bwd = nn.vjp(fn, p, *xs, vjp_variables=vf)
-        aux = None
-      vg, *ig = bwd(ct)
-      return {'y': y, 'vg': vg, 'ig': ig, 'aux': aux}
-    if kind == 'jvp':
-      tv = {}
-      for i, t in tvars:
-        v = d['vars'][i]
-        tv.setdefault(v['col'], {})[v['name']] = t
-      y, t = nn.jvp(fn, p, tuple(xs), tuple(tins), tv)
-      return {'y': y, 't': t}
-    if kind == 'grad':
-      g = nn.grad(fn, p, *xs, has_aux=bool(d.get('has_aux')))
-      if d.get('has_aux'):
-        g, aux = g
-        return {'ig': list(g) if isinstance(g, tuple) else [g], 'aux': aux}
-      return {'ig': list(g) if isinstance(g, tuple) else [g]}
-    if kind == 'value_and_grad':
-      out, g = nn.value_and_grad(fn, p, *xs, has_aux=bool(d.get('has_aux')))
-      y, aux = (out if d.get('has_aux') else (out, None))
-      return {'y': y, 'ig': list(g) if isinstance(g, tuple) else [g], 'aux': aux}
-    if kind == 'custom_vjp':
-      # backward rule: twice the true cotangents for the inputs, three times for the variables
-      def f(m, *a):
-        return m(*a)
-
-      def fwd(m, *a):
-        return nn.vjp(f, m, *a, vjp_variables=vf)
-
-      def bwd(vjp_fn, ct):
-        vg, *ig = vjp_fn(ct)
-        return (jax.tree_util.tree_map(lambda g: 3.0 * g, vg), *[2.0 * g for g in ig])
-      cf = nn.custom_vjp(f, forward_fn=fwd, backward_fn=bwd, grad_vars=vf)
-      y = cf(p, *xs)
-      return {'y': y}
-    raise ValueError(kind)
+        ys.append(diff_call(d, self.inner, xs, ct, tvars, tins, nest=('p',)).get('y'))
+    return ys
 
 
 def to_py(x):
@@ -209,6 +245,25 @@ def run_case(d, did):
       return {'err': type(e).__name__, 'msg': str(e)[:200], 'tb': traceback.format_exc()[-500:]}
   out['impl'] = safe(impl)
   out['ref'] = safe(ref)
+
+  def hist_impl():
+    vars2 = {c: {'inner': t} for c, t in variables.items()}
+    ys, upd = Outer(did).apply(vars2, xs, ct, tvars, tins, mutable=mutable)
+    after = {**vars2, **flax.core.unfreeze(upd)}
+    return {'ys': [None if y is None else float(y) for y in ys], 'vars_after': [float(after[v['col']]['inner']['p'][v['name']]) for v in d['vars']]}
+
+  def hist_ref():
+    cur = {c: t['p'] for c, t in variables.items()}
+    ys = []
+    for s in d['seq']:
+      o, upd = Poly(did).apply(cur, *xs, mutable=mutable)
+      cur = {**cur, **flax.core.unfreeze(upd)}
+      y = o[0] if d.get('has_aux') else o
+      ys.append(None if (s == 'diff' and d['kind'] == 'grad') else float(y))
+    return {'ys': ys, 'vars_after': [float(cur[v['col']][v['name']]) for v in d['vars']]}
+  if d.get('seq'):
+    out['hist_impl'] = safe(hist_impl)
+    out['hist_ref'] = safe(hist_ref)
   if d['kind'] == 'custom_vjp':
     # differentiate THROUGH the custom_vjp module from outside: the user's rule must be used (x2 for inputs, x3 for variables)
     sel_cols = [c for c in variables if flax.core.scope.in_filter(dec_filter(d['filter']), c)]
@@ -221,6 +276,15 @@ def run_case(d, did):
       vg, *ig = jax.grad(through, argnums=tuple(range(nin + 1)))({c: variables[c] for c in sel_cols}, *xs)
       return {'vg': [[i, float(vg[v['col']]['p'][v['name']])] for i, v in enumerate(d['vars']) if v['col'] in sel_cols], 'ig': [float(z) for z in ig]}
     out['through'] = safe(g)
+
+    def g_ref():
+      # the user's rule applied to the true cotangents of the pure function: x3 for the selected variables, x2 for the inputs
+      def fsel(sel, *a):
+        o = Poly(did).apply({c: t['p'] for c, t in {**variables, **sel}.items()}, *a, mutable=mutable)[0]
+        return o[0] if d.get('has_aux') else o
+      vg, *ig = jax.grad(fsel, argnums=tuple(range(nin + 1)))({c: variables[c] for c in sel_cols}, *xs)
+      return {'vg': [[i, 3.0 * float(vg[v['col']]['p'][v['name']])] for i, v in enumerate(d['vars']) if v['col'] in sel_cols], 'ig': [2.0 * float(z) for z in ig]}
+    out['through_ref'] = safe(g_ref)
   return out
 
 
